@@ -342,7 +342,9 @@ func kindIs(k Kind) func(*Ty) bool { return func(t *Ty) bool { return t != nil &
 var numLits = []string{"0", "1", "2", "3", "4", "5", "7", "9", "10", "12", "42", "100", "255", "1000",
 	"0.5", "1.5", "2.25", "0.125", "3.75", "10.5", "0.0", "1.0", "2.50",
 	"1e3", "2.5e1", "5e-1", "25e-2", "1E2", "1e+2", "12.5e1", "1.5e0",
-	"123456789012345678901234567890", "18446744073709551616", "1e30", "4294967296", "9007199254740993", "007"}
+	"123456789012345678901234567890", "18446744073709551616", "1e30", "4294967296", "9007199254740993", "007",
+	// integers that fill 60..63 bits: sums and differences of two or three of them need more than 64 bits
+	"9223372036854775807", "9223372036854775806", "4611686018427387905", "1152921504606846977", "999999999999999999", "9223372036854775807"}
 
 func (g *gen) numLit() *Node { return withTy(nNum(numLits[g.pick(len(numLits))]), tNum) }
 
